@@ -69,6 +69,7 @@ def read_facts(sb, world):
             if os.path.isdir(alt):
                 scope.append((sb.to_model(os.path.realpath(alt)), v, "alt"))
     insecure_roots = []
+    insecure_aliases = []
     for v in world["mounts"]:
         t = real(v) + b"/.Trash"
         if os.path.lexists(t):
@@ -78,9 +79,15 @@ def read_facts(sb, world):
             except OSError:
                 ok = False
             if not ok and os.path.isdir(t + b"/%d" % uid):
-                insecure_roots.append(sb.to_model(os.path.realpath(t + b"/%d" % uid)))
+                rr = sb.to_model(os.path.realpath(t + b"/%d" % uid))
+                if any(rr == d_ for d_, _b, _k in scope):
+                    # the insecure name is an alias (through a symbolic link) of a directory that another volume reaches
+                    # securely: its content is legitimately in scope - as entries of that other volume, never of this one
+                    insecure_aliases.append((v, rr))
+                else:
+                    insecure_roots.append(rr)
     cwd_real = os.path.realpath(real(world["cwd"]))
-    return {"scope": scope, "insecure_roots": insecure_roots, "cwd": sb.to_model(cwd_real)}
+    return {"scope": scope, "insecure_roots": insecure_roots, "insecure_aliases": insecure_aliases, "cwd": sb.to_model(cwd_real)}
 
 
 def all_slots(before, tdirs):
@@ -238,6 +245,21 @@ def restore_expect(world, facts, before, obs, slots, inscope_good):
             notes["tags"].append("restore:trailing-slash-path")
             notes["stop_checking"] = True
             break
+        if any(c in (b".", b"..") for c in loc.split(b"/")):
+            # a recorded Path with '.' or '..' components (no trash-put writes one; other tools may): os.makedirs works
+            # on the string and may create 'gone' of 'a/gone/../x' before it fails - or succeed.  What is certain: the
+            # file the path designates once every missing directory exists is never replaced without --overwrite
+            at = _virtual_dest(before, loc)
+            if at is not None and before.get(at) is not None and not o.get("overwrite"):
+                notes["refused"] = True
+                notes["tags"].append("restore:dot-components-onto-existing")
+                notes["protect"] = (at, e["tdir"] + b"/info/" + e["name"] + b".trashinfo", e["tdir"] + b"/files/" + e["name"])
+                notes["stop_checking"] = True       # (directories made on the way are none of the frame's business)
+                break
+            slots[k] = "any"
+            notes["tags"].append("restore:dot-components")
+            notes["stop_checking"] = True
+            break
         if loc in restored_locs:
             # restored earlier in this very run: it exists now
             if o.get("overwrite"):
@@ -282,6 +304,24 @@ def restore_expect(world, facts, before, obs, slots, inscope_good):
     return notes
 
 
+def _virtual_dest(before, loc):
+    """where an absolute path string leads once all its missing directories have been created (None: through a link)"""
+    if not loc.startswith(b"/"):
+        return None
+    cur = b""
+    for comp in loc.split(b"/"):
+        if comp in (b"", b"."):
+            continue
+        if comp == b"..":
+            cur = cur.rsplit(b"/", 1)[0]
+            continue
+        cur = cur + b"/" + comp
+        v = before.get(cur)
+        if v is not None and v[0] == "l":
+            return None
+    return cur or b"/"
+
+
 def _link_to_dir(before, p):
     v = before.get(p)
     if v is None or v[0] != "l":
@@ -292,7 +332,31 @@ def _link_to_dir(before, p):
     return w is not None and (w[0] == "d" or (w[0] == "l" and _link_to_dir(before, q)))
 
 
-def evaluate(world, drv, want_states=False, oracles=("effects",), plan=None, faults=None):
+AGE_RX = re.compile(rb"@AGE:(-?\d+)@")
+
+
+def materialise_clock(world):
+    """worlds that run trash-empty on the real clock: "now" is this moment in the world's time zone, the dates written
+    as ages become dates relative to it (so that a replay tomorrow is the same experiment)"""
+    rc = world.get("opts", {}).get("realClock")
+    if not rc:
+        return world
+    tz = datetime.timezone(datetime.timedelta(hours=rc["utcOffsetHours"]))
+    now = datetime.datetime.now(tz).replace(tzinfo=None, microsecond=0)
+    fill = lambda m: (now + datetime.timedelta(seconds=int(m.group(1)))).strftime("%Y-%m-%dT%H:%M:%S").encode()
+    w = dict(world)
+    w["opts"] = dict(world["opts"], now=[now.year, now.month, now.day, now.hour, now.minute, now.second])
+    w["nodes"] = [dict(n, data=AGE_RX.sub(fill, n["data"])) if n.get("k") == "f" and b"@AGE:" in n.get("data", b"") else n
+                  for n in world["nodes"]]
+    meta = dict(world["meta"])
+    meta["entries"] = [dict(e, date=AGE_RX.sub(fill, e["date"].encode("latin-1")).decode("latin-1")) if "@AGE:" in str(e.get("date")) else e
+                       for e in meta.get("entries", [])]
+    w["meta"] = meta
+    return w
+
+
+def evaluate(world, drv, want_states=False, oracles=("effects",), plan=None, faults=None, interrupt_sweep=0):
+    world = materialise_clock(world)
     plan = dict(plan or {})
     if want_states:
         plan["states"] = True
@@ -345,6 +409,14 @@ def evaluate(world, drv, want_states=False, oracles=("effects",), plan=None, fau
         slot_rows.append(row)
     for e in set(x if isinstance(x, str) else x[0] for x in slots.values()):
         res["tags"].append("expect:" + e)
+    if "effects" in oracles and notes.get("protect"):
+        # a destination that exists once the missing directories of a dotted path are made: it is never replaced without
+        # --overwrite, and the entry stays in the trash (node equality on the snapshots)
+        at, ip, pp = notes["protect"]
+        same = lambda q: before.get(q) is not None and after.get(q) is not None and before[q][:3] == after[q][:3] and before[q][4] == after[q][4]
+        bad_ = [q for q in [at, ip, pp] + [q for q in before if q.startswith(at + b"/") or q.startswith(pp + b"/")] if not same(q)]
+        res["oracle"]["effects"] = {"ok": not bad_, "verdict": "ok" if not bad_ else
+                                    "Effects.existingDestinationReplaced without --overwrite (or the entry left the trash): %r" % bad_[:3]}
     if "effects" in oracles and not notes.get("stop_checking"):
         crashed = obs.get("exc") is not None
         if not crashed or cmd in ("list",):
@@ -359,6 +431,21 @@ def evaluate(world, drv, want_states=False, oracles=("effects",), plan=None, fau
                 bad = dict(r, index=i)
                 break
         res["oracle"]["crash15"] = bad or {"ok": True, "verdict": "ok"}
+        if interrupt_sweep and bad is None and obs.get("exc") is None:
+            # a keyboard interrupt (SIGINT) right after each mutating call in turn: the interpreter unwinds through the
+            # program's own handlers (finally / except clauses); what they leave behind is judged like a killed run
+            nint = 0
+            for k in range(min(len(obs["trace"]), interrupt_sweep)):
+                o = run_world(world, {"interrupt_after": k})
+                nint += 1
+                r = drv.ask(dict(base, prop="crash15", after=snapshot_rows(o["after"]), slots=slot_rows))
+                if not r["ok"]:
+                    bad = {"ok": False, "verdict": "%s (after a keyboard interrupt behind call %d, %s)" % (
+                        r["verdict"], k, obs["trace"][k][0])}
+                    break
+            res["oracle"]["crash15"] = bad or {"ok": True, "verdict": "ok"}
+            res["n_states"] = res.get("n_states", 0) + nint
+            res["tags"].append("interrupt-sweep")
     if "bag" in oracles and cmd == "list" and obs.get("exc") is None:
         lines = [l for l in obs["stdout"].split(b"\n")]
         # names may contain newlines: rebuild lines by the leading date / question marks
@@ -389,6 +476,18 @@ def evaluate(world, drv, want_states=False, oracles=("effects",), plan=None, fau
                     mentions = True
         res["oracle"]["C08"] = drv.ask(dict(base, prop="C08", roots=[hx(r) for r in facts["insecure_roots"]], mentions=mentions))
         res["tags"].append("c08:insecure-populated")
+    if "c08" in oracles and facts.get("insecure_aliases") and "C08" not in res["oracle"]:
+        mentions = False
+        for v_, root in facts["insecure_aliases"]:
+            for e in world["meta"]["entries"]:
+                if e["tdir"] == root and not e["rec"].startswith(b"/"):
+                    wrong = v_.rstrip(b"/") + b"/" + e["rec"]          # the entry read as if it belonged to the insecure volume
+                    shown = (obs["stdout"] + b"\n").count(b" " + wrong + b"\n")
+                    legit = sum(1 for o in world["meta"]["entries"] if o["loc"] == wrong)
+                    if shown > legit:
+                        mentions = True
+        res["oracle"]["C08"] = drv.ask(dict(base, prop="C08", roots=[], mentions=mentions))
+        res["tags"].append("c08:insecure-alias-of-secure")
     if cmd == "restore":
         # C13 listing: every in-scope well-formed entry is offered exactly once, numbered from 0, ordered as requested
         pr = notes.get("printed", [])
